@@ -496,14 +496,16 @@ class SSAdaptiveSupport(BaseAdaptiveSupport):
             alpha = 1.
         if self.isdiagonal:
             alpha = alpha**0.5
-            # check that we won't go beyond the max specified
+            # check that we won't go beyond the max specified; note that
+            # decreasing is always allowed, otherwise a proposal that
+            # starts above the maximum could never adapt
             max_std = alpha * self._std.max()
-            if max_std <= self.max_std:
+            if alpha <= 1 or max_std <= self.max_std:
                 self._std *= alpha
         else:
             # check that we won't go beyond the max specified
             max_cov = alpha * self._cov.max()
-            if max_cov <= self.max_std**2:
+            if alpha <= 1 or max_cov <= self.max_std**2:
                 self._cov *= alpha
         self._update_proposal()
 
